@@ -105,7 +105,7 @@ pub fn run_crash(case: &Case) -> RunOutput {
     let w = world.clone();
     let recorded = sim.block_on(async move {
         let case = case_owned;
-        let opts = Opts { settle_each: true, check_timestamps: false, props: ["C04"].into_iter().collect(), check_size_limit: false, message_cache: case.knobs.cache_enabled, encryption: false, http_arm: false };
+        let opts = Opts { settle_each: true, check_timestamps: false, props: ["C04"].into_iter().collect(), check_size_limit: false, message_cache: case.knobs.cache_enabled, encryption: false, http_arm: false, disk_faults: false };
         let mut h = Harness::new(w.clone(), opts, case.gen.clients.max(1));
         let mut checkpoints: Vec<Checkpoint> = Vec::new();
         let mut ops: Vec<Op> = Vec::new();
